@@ -719,3 +719,170 @@ package analysis
 //@   requires opts.Spec != nil && opts.Spec.spec != nil && strfmt.Default != nil
 //@   modifies heaps DOC, heaps INDEX, heaps FCTX
 //@   ensures result == nil ==> synced(opts.Spec)
+
+// ---------------------------------------------------------------- analyzer.go: pattern and enum indexes (C13)
+// generated by /verif/tools/gen_pe_contracts.py (patterns written once, enums derived)
+
+//@ fun pkey(prefix string, i int) string = "#" + path.Join(prefix, "parameters", strconv.Itoa(i))
+//@ fun hkey(refPref string, h string) string = "#" + path.Join(refPref, "headers", h)
+
+// the items chain under an owner: every (key, Pat) pair it declares
+//@ fun itPat(k string, p string, items *spec.Items, prefix string, name string) bool = items != nil && ((k == "#" + path.Join(prefix, name) && p == items.Pattern && p != "") || itPat(k, p, items.Items, path.Join(prefix, name), name))
+
+//@ func (s *Spec) analyzeItems(name, items, prefix, location)
+//@   aspect patterns
+//@   requires s != nil && idxMaps(s)
+//@   modifies map s.references.items, map s.references.headerItems, map s.references.parameterItems, map s.references.allRefs, map s.patterns.items, map s.patterns.allPatterns, map s.enums.items, map s.enums.allEnums
+//@   ensures forall k in dom(s.patterns.items) :: (old(k in dom(s.patterns.items)) && s.patterns.items[k] == old(s.patterns.items[k])) || itPat(k, s.patterns.items[k], items, prefix, name)
+//@   ensures forall k string :: forall p string :: itPat(k, p, items, prefix, name) ==> k in dom(s.patterns.items) && k in dom(s.patterns.allPatterns)
+//@   ensures forall k string :: old(k in dom(s.patterns.items)) ==> k in dom(s.patterns.items)
+//@   ensures forall k string :: old(k in dom(s.patterns.allPatterns)) ==> k in dom(s.patterns.allPatterns)
+
+//@ func (s *Spec) analyzeSchema(name, schema, prefix)
+//@   aspect patterns
+//@   requires s != nil && schema != nil && idxMaps(s)
+//@   modifies map s.allSchemas, map s.allOfs, map s.references.schemas, map s.references.allRefs, map s.patterns.schemas, map s.patterns.allPatterns, map s.enums.schemas, map s.enums.allEnums
+//@   ensures schema.Pattern != "" ==> ("#" + path.Join(prefix, jsonpointer.Escape(name))) in dom(s.patterns.schemas) && ("#" + path.Join(prefix, jsonpointer.Escape(name))) in dom(s.patterns.allPatterns)
+//@   ensures forall k string :: old(k in dom(s.patterns.schemas)) ==> k in dom(s.patterns.schemas)
+//@   ensures forall k string :: old(k in dom(s.patterns.allPatterns)) ==> k in dom(s.patterns.allPatterns)
+//@   loop 1: invariant forall k string :: old(k in dom(s.patterns.schemas)) ==> k in dom(s.patterns.schemas)
+//@   loop 1: invariant forall k string :: old(k in dom(s.patterns.allPatterns)) ==> k in dom(s.patterns.allPatterns)
+//@   loop 1: invariant schema.Pattern != "" ==> ("#" + path.Join(prefix, jsonpointer.Escape(name))) in dom(s.patterns.schemas) && ("#" + path.Join(prefix, jsonpointer.Escape(name))) in dom(s.patterns.allPatterns)
+//@   loop 2: invariant forall k string :: old(k in dom(s.patterns.schemas)) ==> k in dom(s.patterns.schemas)
+//@   loop 2: invariant forall k string :: old(k in dom(s.patterns.allPatterns)) ==> k in dom(s.patterns.allPatterns)
+//@   loop 2: invariant schema.Pattern != "" ==> ("#" + path.Join(prefix, jsonpointer.Escape(name))) in dom(s.patterns.schemas) && ("#" + path.Join(prefix, jsonpointer.Escape(name))) in dom(s.patterns.allPatterns)
+//@   loop 3: invariant forall k string :: old(k in dom(s.patterns.schemas)) ==> k in dom(s.patterns.schemas)
+//@   loop 3: invariant forall k string :: old(k in dom(s.patterns.allPatterns)) ==> k in dom(s.patterns.allPatterns)
+//@   loop 3: invariant schema.Pattern != "" ==> ("#" + path.Join(prefix, jsonpointer.Escape(name))) in dom(s.patterns.schemas) && ("#" + path.Join(prefix, jsonpointer.Escape(name))) in dom(s.patterns.allPatterns)
+//@   loop 4: invariant forall k string :: old(k in dom(s.patterns.schemas)) ==> k in dom(s.patterns.schemas)
+//@   loop 4: invariant forall k string :: old(k in dom(s.patterns.allPatterns)) ==> k in dom(s.patterns.allPatterns)
+//@   loop 4: invariant schema.Pattern != "" ==> ("#" + path.Join(prefix, jsonpointer.Escape(name))) in dom(s.patterns.schemas) && ("#" + path.Join(prefix, jsonpointer.Escape(name))) in dom(s.patterns.allPatterns)
+//@   loop 5: invariant forall k string :: old(k in dom(s.patterns.schemas)) ==> k in dom(s.patterns.schemas)
+//@   loop 5: invariant forall k string :: old(k in dom(s.patterns.allPatterns)) ==> k in dom(s.patterns.allPatterns)
+//@   loop 5: invariant schema.Pattern != "" ==> ("#" + path.Join(prefix, jsonpointer.Escape(name))) in dom(s.patterns.schemas) && ("#" + path.Join(prefix, jsonpointer.Escape(name))) in dom(s.patterns.allPatterns)
+//@   loop 6: invariant forall k string :: old(k in dom(s.patterns.schemas)) ==> k in dom(s.patterns.schemas)
+//@   loop 6: invariant forall k string :: old(k in dom(s.patterns.allPatterns)) ==> k in dom(s.patterns.allPatterns)
+//@   loop 6: invariant schema.Pattern != "" ==> ("#" + path.Join(prefix, jsonpointer.Escape(name))) in dom(s.patterns.schemas) && ("#" + path.Join(prefix, jsonpointer.Escape(name))) in dom(s.patterns.allPatterns)
+//@   loop 7: invariant forall k string :: old(k in dom(s.patterns.schemas)) ==> k in dom(s.patterns.schemas)
+//@   loop 7: invariant forall k string :: old(k in dom(s.patterns.allPatterns)) ==> k in dom(s.patterns.allPatterns)
+//@   loop 7: invariant schema.Pattern != "" ==> ("#" + path.Join(prefix, jsonpointer.Escape(name))) in dom(s.patterns.schemas) && ("#" + path.Join(prefix, jsonpointer.Escape(name))) in dom(s.patterns.allPatterns)
+
+//@ func (s *Spec) analyzeParameter(prefix, i, param)
+//@   aspect patterns
+//@   requires s != nil && idxMaps(s)
+//@   modifies map s.references.parameters, map s.references.allRefs, map s.patterns.parameters, map s.patterns.allPatterns, map s.enums.parameters, map s.enums.allEnums, map s.references.items, map s.references.headerItems, map s.references.parameterItems, map s.patterns.items, map s.enums.items, map s.allSchemas, map s.allOfs, map s.references.schemas, map s.patterns.schemas, map s.enums.schemas
+//@   ensures param.Pattern != "" ==> pkey(prefix, i) in dom(s.patterns.parameters) && s.patterns.parameters[pkey(prefix, i)] == param.Pattern && pkey(prefix, i) in dom(s.patterns.allPatterns)
+//@   ensures forall k in dom(s.patterns.parameters) :: (old(k in dom(s.patterns.parameters)) && s.patterns.parameters[k] == old(s.patterns.parameters[k])) || (k == pkey(prefix, i) && param.Pattern != "" && s.patterns.parameters[k] == param.Pattern)
+//@   ensures forall k string :: old(k in dom(s.patterns.parameters)) ==> k in dom(s.patterns.parameters)
+//@   ensures forall k string :: old(k in dom(s.patterns.allPatterns)) ==> k in dom(s.patterns.allPatterns)
+//@   ensures forall k string :: forall p string :: itPat(k, p, param.Items, path.Join(prefix, "parameters", strconv.Itoa(i)), "items") ==> k in dom(s.patterns.items) && k in dom(s.patterns.allPatterns)
+
+// a response (default or status code) registers the Pats of its headers under <response pointer>/headers/<name>
+//@ fun hdrPat(k string, p string, res spec.Response, refPref string) bool = exists h in dom(res.Headers) :: k == hkey(refPref, h) && p == res.Headers[h].Pattern && p != ""
+
+//@ func (s *Spec) analyzeDefaultResponse(prefix, res)
+//@   aspect patterns
+//@   requires s != nil && res != nil && idxMaps(s)
+//@   modifies map s.references.responses, map s.references.allRefs, map s.patterns.headers, map s.patterns.allPatterns, map s.enums.headers, map s.enums.allEnums, map s.references.items, map s.references.headerItems, map s.references.parameterItems, map s.patterns.items, map s.enums.items, map s.allSchemas, map s.allOfs, map s.references.schemas, map s.patterns.schemas, map s.enums.schemas
+//@   ensures forall h in dom(res.Headers) :: res.Headers[h].Pattern != "" ==> hkey(path.Join(prefix, "responses", "default"), h) in dom(s.patterns.headers) && hkey(path.Join(prefix, "responses", "default"), h) in dom(s.patterns.allPatterns)
+//@   ensures forall k in dom(s.patterns.headers) :: (old(k in dom(s.patterns.headers)) && s.patterns.headers[k] == old(s.patterns.headers[k])) || hdrPat(k, s.patterns.headers[k], *res, path.Join(prefix, "responses", "default"))
+//@   ensures forall k string :: old(k in dom(s.patterns.headers)) ==> k in dom(s.patterns.headers)
+//@   ensures forall k string :: old(k in dom(s.patterns.allPatterns)) ==> k in dom(s.patterns.allPatterns)
+//@   loop 1: invariant forall h in seen :: res.Headers[h].Pattern != "" ==> hkey(path.Join(prefix, "responses", "default"), h) in dom(s.patterns.headers) && hkey(path.Join(prefix, "responses", "default"), h) in dom(s.patterns.allPatterns)
+//@   loop 1: invariant forall k in dom(s.patterns.headers) :: (old(k in dom(s.patterns.headers)) && s.patterns.headers[k] == old(s.patterns.headers[k])) || hdrPat(k, s.patterns.headers[k], *res, path.Join(prefix, "responses", "default"))
+//@   loop 1: invariant forall k string :: old(k in dom(s.patterns.headers)) ==> k in dom(s.patterns.headers)
+//@   loop 1: invariant forall k string :: old(k in dom(s.patterns.allPatterns)) ==> k in dom(s.patterns.allPatterns)
+
+//@ func (s *Spec) analyzeResponse(prefix, k, res)
+//@   aspect patterns
+//@   requires s != nil && idxMaps(s)
+//@   modifies map s.references.responses, map s.references.allRefs, map s.patterns.headers, map s.patterns.allPatterns, map s.enums.headers, map s.enums.allEnums, map s.references.items, map s.references.headerItems, map s.references.parameterItems, map s.patterns.items, map s.enums.items, map s.allSchemas, map s.allOfs, map s.references.schemas, map s.patterns.schemas, map s.enums.schemas
+//@   ensures forall h in dom(res.Headers) :: res.Headers[h].Pattern != "" ==> hkey(path.Join(prefix, "responses", strconv.Itoa(k)), h) in dom(s.patterns.headers) && hkey(path.Join(prefix, "responses", strconv.Itoa(k)), h) in dom(s.patterns.allPatterns)
+//@   ensures forall kk in dom(s.patterns.headers) :: (old(kk in dom(s.patterns.headers)) && s.patterns.headers[kk] == old(s.patterns.headers[kk])) || hdrPat(kk, s.patterns.headers[kk], res, path.Join(prefix, "responses", strconv.Itoa(k)))
+//@   ensures forall kk string :: old(kk in dom(s.patterns.headers)) ==> kk in dom(s.patterns.headers)
+//@   ensures forall kk string :: old(kk in dom(s.patterns.allPatterns)) ==> kk in dom(s.patterns.allPatterns)
+//@   loop 1: invariant forall h in seen :: res.Headers[h].Pattern != "" ==> hkey(path.Join(prefix, "responses", strconv.Itoa(k)), h) in dom(s.patterns.headers) && hkey(path.Join(prefix, "responses", strconv.Itoa(k)), h) in dom(s.patterns.allPatterns)
+//@   loop 1: invariant forall kk in dom(s.patterns.headers) :: (old(kk in dom(s.patterns.headers)) && s.patterns.headers[kk] == old(s.patterns.headers[kk])) || hdrPat(kk, s.patterns.headers[kk], res, path.Join(prefix, "responses", strconv.Itoa(k)))
+//@   loop 1: invariant forall kk string :: old(kk in dom(s.patterns.headers)) ==> kk in dom(s.patterns.headers)
+//@   loop 1: invariant forall kk string :: old(kk in dom(s.patterns.allPatterns)) ==> kk in dom(s.patterns.allPatterns)
+
+
+// the items chain under an owner: every (key, Enum) pair it declares
+//@ fun itEnum(k string, p []any, items *spec.Items, prefix string, name string) bool = items != nil && ((k == "#" + path.Join(prefix, name) && p == items.Enum && len(p) > 0) || itEnum(k, p, items.Items, path.Join(prefix, name), name))
+
+//@ func (s *Spec) analyzeItems(name, items, prefix, location)
+//@   aspect enums
+//@   requires s != nil && idxMaps(s)
+//@   modifies map s.references.items, map s.references.headerItems, map s.references.parameterItems, map s.references.allRefs, map s.patterns.items, map s.patterns.allPatterns, map s.enums.items, map s.enums.allEnums
+//@   ensures forall k in dom(s.enums.items) :: (old(k in dom(s.enums.items)) && s.enums.items[k] == old(s.enums.items[k])) || itEnum(k, s.enums.items[k], items, prefix, name)
+//@   ensures forall k string :: forall p []any :: itEnum(k, p, items, prefix, name) ==> k in dom(s.enums.items) && k in dom(s.enums.allEnums)
+//@   ensures forall k string :: old(k in dom(s.enums.items)) ==> k in dom(s.enums.items)
+//@   ensures forall k string :: old(k in dom(s.enums.allEnums)) ==> k in dom(s.enums.allEnums)
+
+//@ func (s *Spec) analyzeSchema(name, schema, prefix)
+//@   aspect enums
+//@   requires s != nil && schema != nil && idxMaps(s)
+//@   modifies map s.allSchemas, map s.allOfs, map s.references.schemas, map s.references.allRefs, map s.patterns.schemas, map s.patterns.allPatterns, map s.enums.schemas, map s.enums.allEnums
+//@   ensures len(schema.Enum) > 0 ==> ("#" + path.Join(prefix, jsonpointer.Escape(name))) in dom(s.enums.schemas) && ("#" + path.Join(prefix, jsonpointer.Escape(name))) in dom(s.enums.allEnums)
+//@   ensures forall k string :: old(k in dom(s.enums.schemas)) ==> k in dom(s.enums.schemas)
+//@   ensures forall k string :: old(k in dom(s.enums.allEnums)) ==> k in dom(s.enums.allEnums)
+//@   loop 1: invariant forall k string :: old(k in dom(s.enums.schemas)) ==> k in dom(s.enums.schemas)
+//@   loop 1: invariant forall k string :: old(k in dom(s.enums.allEnums)) ==> k in dom(s.enums.allEnums)
+//@   loop 1: invariant len(schema.Enum) > 0 ==> ("#" + path.Join(prefix, jsonpointer.Escape(name))) in dom(s.enums.schemas) && ("#" + path.Join(prefix, jsonpointer.Escape(name))) in dom(s.enums.allEnums)
+//@   loop 2: invariant forall k string :: old(k in dom(s.enums.schemas)) ==> k in dom(s.enums.schemas)
+//@   loop 2: invariant forall k string :: old(k in dom(s.enums.allEnums)) ==> k in dom(s.enums.allEnums)
+//@   loop 2: invariant len(schema.Enum) > 0 ==> ("#" + path.Join(prefix, jsonpointer.Escape(name))) in dom(s.enums.schemas) && ("#" + path.Join(prefix, jsonpointer.Escape(name))) in dom(s.enums.allEnums)
+//@   loop 3: invariant forall k string :: old(k in dom(s.enums.schemas)) ==> k in dom(s.enums.schemas)
+//@   loop 3: invariant forall k string :: old(k in dom(s.enums.allEnums)) ==> k in dom(s.enums.allEnums)
+//@   loop 3: invariant len(schema.Enum) > 0 ==> ("#" + path.Join(prefix, jsonpointer.Escape(name))) in dom(s.enums.schemas) && ("#" + path.Join(prefix, jsonpointer.Escape(name))) in dom(s.enums.allEnums)
+//@   loop 4: invariant forall k string :: old(k in dom(s.enums.schemas)) ==> k in dom(s.enums.schemas)
+//@   loop 4: invariant forall k string :: old(k in dom(s.enums.allEnums)) ==> k in dom(s.enums.allEnums)
+//@   loop 4: invariant len(schema.Enum) > 0 ==> ("#" + path.Join(prefix, jsonpointer.Escape(name))) in dom(s.enums.schemas) && ("#" + path.Join(prefix, jsonpointer.Escape(name))) in dom(s.enums.allEnums)
+//@   loop 5: invariant forall k string :: old(k in dom(s.enums.schemas)) ==> k in dom(s.enums.schemas)
+//@   loop 5: invariant forall k string :: old(k in dom(s.enums.allEnums)) ==> k in dom(s.enums.allEnums)
+//@   loop 5: invariant len(schema.Enum) > 0 ==> ("#" + path.Join(prefix, jsonpointer.Escape(name))) in dom(s.enums.schemas) && ("#" + path.Join(prefix, jsonpointer.Escape(name))) in dom(s.enums.allEnums)
+//@   loop 6: invariant forall k string :: old(k in dom(s.enums.schemas)) ==> k in dom(s.enums.schemas)
+//@   loop 6: invariant forall k string :: old(k in dom(s.enums.allEnums)) ==> k in dom(s.enums.allEnums)
+//@   loop 6: invariant len(schema.Enum) > 0 ==> ("#" + path.Join(prefix, jsonpointer.Escape(name))) in dom(s.enums.schemas) && ("#" + path.Join(prefix, jsonpointer.Escape(name))) in dom(s.enums.allEnums)
+//@   loop 7: invariant forall k string :: old(k in dom(s.enums.schemas)) ==> k in dom(s.enums.schemas)
+//@   loop 7: invariant forall k string :: old(k in dom(s.enums.allEnums)) ==> k in dom(s.enums.allEnums)
+//@   loop 7: invariant len(schema.Enum) > 0 ==> ("#" + path.Join(prefix, jsonpointer.Escape(name))) in dom(s.enums.schemas) && ("#" + path.Join(prefix, jsonpointer.Escape(name))) in dom(s.enums.allEnums)
+
+//@ func (s *Spec) analyzeParameter(prefix, i, param)
+//@   aspect enums
+//@   requires s != nil && idxMaps(s)
+//@   modifies map s.references.parameters, map s.references.allRefs, map s.patterns.parameters, map s.patterns.allPatterns, map s.enums.parameters, map s.enums.allEnums, map s.references.items, map s.references.headerItems, map s.references.parameterItems, map s.patterns.items, map s.enums.items, map s.allSchemas, map s.allOfs, map s.references.schemas, map s.patterns.schemas, map s.enums.schemas
+//@   ensures len(param.Enum) > 0 ==> pkey(prefix, i) in dom(s.enums.parameters) && s.enums.parameters[pkey(prefix, i)] == param.Enum && pkey(prefix, i) in dom(s.enums.allEnums)
+//@   ensures forall k in dom(s.enums.parameters) :: (old(k in dom(s.enums.parameters)) && s.enums.parameters[k] == old(s.enums.parameters[k])) || (k == pkey(prefix, i) && len(param.Enum) > 0 && s.enums.parameters[k] == param.Enum)
+//@   ensures forall k string :: old(k in dom(s.enums.parameters)) ==> k in dom(s.enums.parameters)
+//@   ensures forall k string :: old(k in dom(s.enums.allEnums)) ==> k in dom(s.enums.allEnums)
+//@   ensures forall k string :: forall p []any :: itEnum(k, p, param.Items, path.Join(prefix, "parameters", strconv.Itoa(i)), "items") ==> k in dom(s.enums.items) && k in dom(s.enums.allEnums)
+
+// a response (default or status code) registers the Enums of its headers under <response pointer>/headers/<name>
+//@ fun hdrEnum(k string, p []any, res spec.Response, refPref string) bool = exists h in dom(res.Headers) :: k == hkey(refPref, h) && p == res.Headers[h].Enum && len(p) > 0
+
+//@ func (s *Spec) analyzeDefaultResponse(prefix, res)
+//@   aspect enums
+//@   requires s != nil && res != nil && idxMaps(s)
+//@   modifies map s.references.responses, map s.references.allRefs, map s.patterns.headers, map s.patterns.allPatterns, map s.enums.headers, map s.enums.allEnums, map s.references.items, map s.references.headerItems, map s.references.parameterItems, map s.patterns.items, map s.enums.items, map s.allSchemas, map s.allOfs, map s.references.schemas, map s.patterns.schemas, map s.enums.schemas
+//@   ensures forall h in dom(res.Headers) :: len(res.Headers[h].Enum) > 0 ==> hkey(path.Join(prefix, "responses", "default"), h) in dom(s.enums.headers) && hkey(path.Join(prefix, "responses", "default"), h) in dom(s.enums.allEnums)
+//@   ensures forall k in dom(s.enums.headers) :: (old(k in dom(s.enums.headers)) && s.enums.headers[k] == old(s.enums.headers[k])) || hdrEnum(k, s.enums.headers[k], *res, path.Join(prefix, "responses", "default"))
+//@   ensures forall k string :: old(k in dom(s.enums.headers)) ==> k in dom(s.enums.headers)
+//@   ensures forall k string :: old(k in dom(s.enums.allEnums)) ==> k in dom(s.enums.allEnums)
+//@   loop 1: invariant forall h in seen :: len(res.Headers[h].Enum) > 0 ==> hkey(path.Join(prefix, "responses", "default"), h) in dom(s.enums.headers) && hkey(path.Join(prefix, "responses", "default"), h) in dom(s.enums.allEnums)
+//@   loop 1: invariant forall k in dom(s.enums.headers) :: (old(k in dom(s.enums.headers)) && s.enums.headers[k] == old(s.enums.headers[k])) || hdrEnum(k, s.enums.headers[k], *res, path.Join(prefix, "responses", "default"))
+//@   loop 1: invariant forall k string :: old(k in dom(s.enums.headers)) ==> k in dom(s.enums.headers)
+//@   loop 1: invariant forall k string :: old(k in dom(s.enums.allEnums)) ==> k in dom(s.enums.allEnums)
+
+//@ func (s *Spec) analyzeResponse(prefix, k, res)
+//@   aspect enums
+//@   requires s != nil && idxMaps(s)
+//@   modifies map s.references.responses, map s.references.allRefs, map s.patterns.headers, map s.patterns.allPatterns, map s.enums.headers, map s.enums.allEnums, map s.references.items, map s.references.headerItems, map s.references.parameterItems, map s.patterns.items, map s.enums.items, map s.allSchemas, map s.allOfs, map s.references.schemas, map s.patterns.schemas, map s.enums.schemas
+//@   ensures forall h in dom(res.Headers) :: len(res.Headers[h].Enum) > 0 ==> hkey(path.Join(prefix, "responses", strconv.Itoa(k)), h) in dom(s.enums.headers) && hkey(path.Join(prefix, "responses", strconv.Itoa(k)), h) in dom(s.enums.allEnums)
+//@   ensures forall kk in dom(s.enums.headers) :: (old(kk in dom(s.enums.headers)) && s.enums.headers[kk] == old(s.enums.headers[kk])) || hdrEnum(kk, s.enums.headers[kk], res, path.Join(prefix, "responses", strconv.Itoa(k)))
+//@   ensures forall kk string :: old(kk in dom(s.enums.headers)) ==> kk in dom(s.enums.headers)
+//@   ensures forall kk string :: old(kk in dom(s.enums.allEnums)) ==> kk in dom(s.enums.allEnums)
+//@   loop 1: invariant forall h in seen :: len(res.Headers[h].Enum) > 0 ==> hkey(path.Join(prefix, "responses", strconv.Itoa(k)), h) in dom(s.enums.headers) && hkey(path.Join(prefix, "responses", strconv.Itoa(k)), h) in dom(s.enums.allEnums)
+//@   loop 1: invariant forall kk in dom(s.enums.headers) :: (old(kk in dom(s.enums.headers)) && s.enums.headers[kk] == old(s.enums.headers[kk])) || hdrEnum(kk, s.enums.headers[kk], res, path.Join(prefix, "responses", strconv.Itoa(k)))
+//@   loop 1: invariant forall kk string :: old(kk in dom(s.enums.headers)) ==> kk in dom(s.enums.headers)
+//@   loop 1: invariant forall kk string :: old(kk in dom(s.enums.allEnums)) ==> kk in dom(s.enums.allEnums)
